@@ -13,6 +13,7 @@ pub mod c16;
 pub mod c17;
 pub mod c18;
 pub mod c19;
+pub mod c20;
 pub mod selftest;
 
 use serde_json::Value;
@@ -35,6 +36,7 @@ pub fn dispatch(name: &str, args: &[String]) -> i32 {
 		"c17" => c17::run(args),
 		"c18" => c18::run(args),
 		"c19" => c19::run(args),
+		"c20" => c20::run(args),
 		"replay" => replay(args),
 		_ => {
 			eprintln!("unknown subcommand {}", name);
@@ -70,6 +72,7 @@ fn replay(args: &[String]) -> i32 {
 		"c17" => c17::replay(&v["replay"]),
 		"c18" => c18::replay(&v["replay"]),
 		"c19" => c19::replay(&v["replay"]),
+		"c20" => c20::replay(&v["replay"]),
 		_ => {
 			eprintln!("no replay handler for property {}", prop);
 			2
